@@ -13,6 +13,8 @@ for all terminal values, per (integral type, domain, subdomain).
 """
 from __future__ import annotations
 
+import itertools
+
 import ufl
 import ufl.classes as C
 from ufl import (CellVolume, FacetNormal, TestFunction, TrialFunction, action, adjoint, avg, conj, derivative, div, dot, ds, dS, dx, energy_norm, exp, functional,
@@ -69,6 +71,8 @@ def build(run):
             if isinstance(e, C.Argument):
                 nbr = e.number()
                 if subst and (nbr, e.part()) in subst:
+                    if isinstance(subst[(nbr, e.part())], C.Zero):
+                        return 0
                     return atoms_hook(w, subst[(nbr, e.part())], comp, env)
                 if subst and nbr in subst:
                     return atoms_hook(w, subst[nbr], comp, env)
@@ -309,12 +313,19 @@ def build(run):
         ("linear form, only test part 1 present", lambda: f * grad(mv1)[1] * dx, 0),
         ("linear form, test parts 1 and 2 present", lambda: f * mv1 * dx + g * mv2 * ds, 0),
     ]
-    for fname, mkA, top in mixed_forms:
-        def act_mixed(mkA=mkA, fname=fname, top=top):
+    # ... and with blocks of the list that are zero (written 0, 0.0, Zero(), 0*c): the argument of that part is replaced by zero, not left in the form
+    ZERO_LISTS = {"": lambda c: c, " [c0, 0, c2]": lambda c: [c[0], 0, c[2]], " [Zero(), c1, 0.0]": lambda c: [C.Zero(), c[1], 0.0], " [c0, c1, 0*c2]": lambda c: [c[0], c[1], 0 * c[2]],
+                  " [0, 0, 0]": lambda c: [0, 0, 0]}
+    for (fname, mkA, top), (zname, zl) in itertools.product(mixed_forms, ZERO_LISTS.items()):
+        fname = fname + zname
+
+        def act_mixed(mkA=mkA, fname=fname, top=top, zl=zl):
             a = mkA()
             cos = [ufl.Coefficient(S), ufl.Coefficient(S2), ufl.Coefficient(S)]
+            given = zl(cos)
+            cos = [c_ if g_ is c_ else C.Zero() for c_, g_ in zip(cos, given)]
             try:
-                r = action(a, cos)
+                r = action(a, given)
             except ValueError as ex:
                 if not deliberate(ex):
                     return violated(f"crash instead of a result or a refusal: {crash_text(ex)}", reproduced=True, backend="exec")
